@@ -177,6 +177,8 @@ func buildBySetters(a *refmodel.Claims) (psatoken.IClaims, error) {
 			x.Profile = nil
 		case *ExtP1Claims:
 			x.Profile = nil
+		case *ExtP1With265Claims:
+			x.P1Claims.Profile = nil
 		default:
 			return nil, errNotRepresentable
 		}
